@@ -41,12 +41,33 @@ from .strategies import (
 from .strategies.rule import AbstractRule
 from .utils import (
     RecursionLimit,
+    TermsCache,
     maple_equations,
     pretty_print_equations,
     taylor_expand,
 )
 
 __all__ = ("CombinatorialSpecification",)
+
+
+def _detached_copy(rule: AbstractRule) -> AbstractRule:
+    """
+    A copy of the rule that shares no mutable state with it: fresh caches, no
+    sub-recurrences, and its own copy of the rule it wraps (EquivalenceRule,
+    ReverseRule).
+    """
+    new_rule = copy(rule)
+    new_rule.terms_cache = TermsCache()
+    new_rule.objects_cache = []
+    new_rule.subrecs = None
+    new_rule.subgenerators = None
+    new_rule.subsamplers = None
+    new_rule.subterms = None
+    new_rule.subobjects = None
+    original_rule = getattr(new_rule, "original_rule", None)
+    if original_rule is not None:
+        new_rule.original_rule = _detached_copy(original_rule)  # type: ignore
+    return new_rule
 
 
 class CombinatorialSpecification(
@@ -218,9 +239,9 @@ class CombinatorialSpecification(
         for cc, rule in self.rules_dict.items():
             if cc != comb_class:
                 if isinstance(rule, EquivalencePathRule):
-                    spec_rules.extend(map(copy, rule.rules))
+                    spec_rules.extend(map(_detached_copy, rule.rules))
                 else:
-                    spec_rules.append(copy(rule))
+                    spec_rules.append(_detached_copy(rule))
 
         ruledb = RuleDBForest(reverse=False, rule_cache=spec_rules)
         css = CombinatorialSpecificationSearcher(
